@@ -936,6 +936,7 @@ def trunc_order(ctx, rr):
     traph = P.require_class('Traph')
     # file attribute -> storage attribute -> structure class, collected over the facade
     storage_of, struct_of = {}, {}
+    late = []
     for u in traph.values():
         for a in P.own(u, ast.Assign):
             if len(a.targets) != 1:
@@ -947,13 +948,15 @@ def trunc_order(ctx, rr):
                     if self_attr(x):
                         storage_of[self_attr(x)] = self_attr(t)
             if isinstance(t, ast.Attribute) and t.attr == 'file' and self_attr(t.value) and self_attr(v):
-                storage_of[self_attr(v)] = self_attr(t.value)
+                late.append((self_attr(v), self_attr(t.value)))
             if self_attr(t) and isinstance(v, ast.Call):
                 for tg in P.targets(v):
                     if tg.cls in ('LRUTrie', 'LinkStore') and tg.name == '__init__':
                         for x in list(v.args) + [k.value for k in v.keywords]:
                             if self_attr(x):
                                 struct_of[self_attr(x)] = tg.cls
+    for f_, s_ in late:
+        storage_of.setdefault(f_, s_)      # the constructor's pairing wins (R-CLEAR-AGREE checks that clear() plugs the same way)
     n = 0
     for u in traph.values():
         opens = {}
